@@ -66,6 +66,7 @@ inductive Step where
   | checkIdle (i now : Nat)          -- timer callback
   | read (i now n : Nat)
   | auxBegin                         -- ListAll/Len/Stats/...: BeginRead
+  | auxBeginBlocking                 -- EnsureVerify/Verify: BeginReadBlocking (waits while a reap runs)
   | auxEnd                           --                        deferred EndRead
   | reapTry                          -- Store.Reap: BeginWrite("reap")
   | reapBlocking                     -- reapLoop: BeginWriteBlocking("reap")
@@ -111,6 +112,10 @@ def step (s : Sys) : Step → Sys
     match s.m.beginRead with
     | (m', .ok) => { s with m := m', aux := s.aux + 1 }
     | (_, _) => s
+  | .auxBeginBlocking =>
+    match s.m.beginReadBlocking with
+    | some m' => { s with m := m', aux := s.aux + 1 }
+    | none => s
   | .auxEnd =>
     if s.aux > 0 then
       let (m', r) := s.m.endRead
@@ -140,7 +145,7 @@ def openCount (l : List Stream) : Nat := (l.filter (fun st => !st.closed)).lengt
 `open <timeout> <now>` → `ok <id>` | `conflict` ;  `openfail` → `error` | `conflict`
 `close <i>` → `released` | `noop` ;  `idle <i> <now>` → `forced` | `rearmed` | `noop`
 `read <i> <now> <n>` → `ok` | `timeout-error`
-`aux+` → `ok|conflict` ; `aux-` → `ok|noop`
+`aux+` → `ok|conflict` ; `auxb+` → `ok|blocked` ; `aux-` → `ok|noop`
 `reap` → `ok|conflict` ; `reapb` → `ok|blocked` ; `reapend` → `ok|noop`
 `state` → `<numReaders> <owner-held 0|1> <open streams>` -/
 
@@ -186,6 +191,8 @@ def step' (d : DState) (line : String) : DState × String :=
     | _, _, _ => (d, "bad-op")
   | ["aux+"] =>
     if (d.s.m.beginRead).2 = .ok then ({ s := step d.s .auxBegin }, "ok") else (d, "conflict")
+  | ["auxb+"] =>
+    if d.s.m.readEnabled then ({ s := step d.s .auxBeginBlocking }, "ok") else (d, "blocked")
   | ["aux-"] => if d.s.aux > 0 then ({ s := step d.s .auxEnd }, "ok") else (d, "noop")
   | ["reap"] =>
     if (d.s.m.beginWrite "reap").2 = .ok then ({ s := step d.s .reapTry }, "ok") else (d, "conflict")
